@@ -126,6 +126,18 @@ def fam_C02(tier, seed):
         b.require(a, worker=w)
         b.require(c, worker=w)
         ps.append(b.done())
+    # one worker, time windows of the two tasks: a due date that is NOT a deadline may be passed, so windows that
+    # look disjoint (due of one <= release of the other) still leave the tasks competing for the worker
+    for (k1, kw1), due, dl, rel, (k2, kw2) in itertools.product([("F", dict(dur=2)), ("V", dict(min=1, max=3)), ("F", dict(dur=3))],
+                                                                (1, 2), (False, True), (1, 2, 3),
+                                                                [("F", dict(dur=1)), ("F", dict(dur=2))]):
+        b = PB(4, tag="shared-worker-windows")
+        a = b.task("A", k1, due=due, deadline=dl, **kw1)
+        c = b.task("B", k2, release=rel, **kw2)
+        w = b.worker("W")
+        b.require(a, worker=w)
+        b.require(c, worker=w)
+        ps.append(b.done())
     # two workers on one task, one shared
     for (k1, kw1), (k2, kw2) in itertools.product(shapes[:4], shapes[:3]):
         b = PB(4, tag="two-workers")
@@ -307,6 +319,17 @@ def fam_C03(tier, seed):
         for cls, kind in itertools.product(("TaskStartAfter", "TaskEndBefore"), ("lax", "strict")):
             b = PB(H, tag=cls)
             (a,) = _mix(b, [k], optional=(0,) if opt else ())
+            b.con(cls, task=a, value=value, kind=kind)
+            ps.append(b.done())
+    # the same single-task constraints on a task that has its own due date (deadline or not) / release date:
+    # the constraint must hold whatever the task's own window says
+    for k, due, dl, rel, value in itertools.product(("F1", "F2", "V"), (1, 2), (False, True), (None, 1), (1, 2, 3)):
+        for cls, kind in itertools.product(("TaskStartAfter", "TaskEndBefore"), ("lax", "strict")):
+            b = PB(H, tag=cls + "+own-window")
+            if k == "V":
+                a = b.task("A", "V", min=1, max=2, due=due, deadline=dl, release=rel)
+            else:
+                a = b.task("A", "F", dur=int(k[1]), due=due, deadline=dl, release=rel)
             b.con(cls, task=a, value=value, kind=kind)
             ps.append(b.done())
     # two-task constraints
